@@ -26,6 +26,8 @@ class Summarizer(Monitor):
     def on_op_end(self, w, a, op, outcome):
         if outcome.get("self_read"):
             return          # reads from inside the host's own call-outs are not replayed by the solo reference
+        if op["op"] == "drop":
+            return
         lst = self.ops.setdefault(a.aid, [])
         if op["op"] == "create":
             lst.append({"op": "create", "raised": a.construct_error})
@@ -177,6 +179,7 @@ class C11(SolverSuite):
                     cur["eps"] = float("%.3g" % max(G.EPS_MIN[spec["objective"]["N"]], cur["eps"] * rng.choice([0.5, 0.2, 2.0])))
                     ops.append({"a": "S0", "op": "setp", "field": "eps", "value": cur["eps"]})
                 ops.append({"a": "S0", "op": "solve"})
+        ops = G.sprinkle_misc(rng, ops, "S0", prob=0.1)
         from .suites import gen_self_reads
         plan = gen_self_reads(rng, G.base_plan(self.prop, run_seed, actors, ops, clock=G.gen_clock(rng)))
         u = rng.random()
@@ -363,6 +366,9 @@ class IsolationMonitor(Monitor):
         st = {}
         if not a.created:
             return None
+        if a.solver is None:
+            # the Solver object was dropped: what remains observable are the Solutions that were handed out
+            return {"handed": [read_solution(s["obj"]) for s in a.solutions if "obj" in s]}
         items = a.walk()
         sd = []
         for it in items:
@@ -502,6 +508,20 @@ class C12(SolverSuite):
         if n_act >= 2 and rng.random() < 0.08 and actors["S0"]["objective"]["N"] == actors["S1"]["objective"]["N"] \
                 and not actors["S1"].get("params_obj"):
             actors["S1"]["start_point_from"] = "S0"      # S1 is started from the very Point object S0's Solution reports
+        if rng.random() < 0.15:
+            # helper-function style: the caller keeps the Solution it got and lets go of the Solver; other solvers run afterwards
+            aid = rng.choice(sorted(actors))
+            pos = [i for i, o in enumerate(plan["ops"]) if o["a"] == aid and o["op"] in ("solve", "results")]
+            if pos:
+                i = rng.choice(pos)
+                plan["ops"] = plan["ops"][:i + 1] + [{"a": aid, "op": "drop"}] + [o for o in plan["ops"][i + 1:] if o["a"] != aid]
+                plan["nested"] = [n for n in plan.get("nested", []) if n["host"] != aid and all(o["a"] != aid for o in n["ops"])]
+                # ... and more solvers are made and run afterwards (they allocate many trial items)
+                for j in range(rng.randint(1, 2)):
+                    nid = "T%d" % j
+                    actors[nid] = G.gen_actor(rng, max_iters=30, refine=False, shipped_prob=0.0)
+                    actors[nid]["params"]["itersLimit"] = rng.randint(5, 40)
+                    plan["ops"] += [{"a": nid, "op": "create"}, {"a": nid, "op": "iterate", "k": rng.randint(3, 30)}, {"a": nid, "op": "results"}]
         if rng.random() < 0.12:
             # one solver's objective fails once (its caller catches it, or its Solve contains it) while the others carry on
             aid = rng.choice(sorted(a for a in actors if actors[a]["objective"]["N"] <= 5))
@@ -768,6 +788,12 @@ class C13(SolverSuite):
                 else:
                     ops.append({"a": "S0", "op": "setp", "field": "eps", "value": float("%.3g" % (spec["params"]["eps"] * 0.3))})
                 ops.append({"a": "S0", "op": "solve"})
+        if rng.random() < 0.1 and "S1" not in actors:
+            idx = [i for i, o in enumerate(ops) if o["op"] in ("iterate", "solve")]
+            if idx:
+                i = rng.choice(idx)
+                ops = ops[:i + 1] + [{"a": "S0", "op": "addl"}] + ops[i + 1:] + [{"a": "S0", "op": "iterate", "k": rng.randint(1, 4)}, {"a": "S0", "op": "solve"}]
+                spec["brackets"] = True
         plan = G.base_plan(self.prop, run_seed, actors, ops, clock=G.gen_clock(rng))
         if rng.random() < 0.15:
             # fault configuration: the objective raises once (inside a batch: the caller catches it; inside Solve: contained)
@@ -836,6 +862,10 @@ class C13(SolverSuite):
             # ("it is told once before the first trial ...")
             eff += [(lid + 100, {"kind": "recording", "overrides": list(ALL_CB), "child": True})
                     for lid, ls in enumerate(spec["listeners"]) if ls.get("via") == "router"]
+            # listeners attached in mid-run: owed every notification of the calls made after they were attached (the one-time
+            # BeforeMethodStart is over by then)
+            late = {lid: ncalls for lid, ncalls in a.late_listeners}
+            eff += [(lid, {"kind": "recording", "overrides": ["OnEndIteration", "OnMethodStop"], "late": True}) for lid in sorted(late)]
             for lid, ls in eff:
                 if ls["kind"] != "recording":
                     continue
@@ -851,6 +881,10 @@ class C13(SolverSuite):
                         bad("before_start_order", "BeforeMethodStart delivered after the first trial")
                 for mk in marks:
                     kind = mk["op"]["op"]
+                    if ls.get("late") and mk["op_no"] < late[lid]:
+                        continue         # (an operation that ran before this listener was attached)
+                    if kind == "addl":
+                        continue
                     if mk["raised"]:
                         # a call that raised (injected failure) promises no notification; if one is sent all the same, it
                         # may only speak of trials that were completed
